@@ -11,7 +11,6 @@ for id in "${ids[@]}"; do
     C03-9|C19-9) checks="C14" ;;
     C05-8) checks="C19" ;;
     C06-9) checks="C05" ;;
-    C08-8) checks="C02" ;;
     C10-8|C15-8) checks="C12" ;;
     C16-8) checks="C03" ;;
     *) checks="$P" ;;
